@@ -25,14 +25,15 @@ RULE = (
     "each shown fraction record identical to the unfiltered run's; k/n labels, balances, average price equal the to-only "
     "run's; k/n labels also recounted from the unfiltered trace (k = position among the event's / lot's fractions from the start "
     "of history, n = count up to the to-date); the to-only view of a valid history is the same with -n; yearly lines = the to-only run's lines with year >= from.year. Non-trivial = window that hides >= 1 fraction and "
-    "shows >= 1 fraction that uses a lot acquired before the window; distinct = hash of (history, schedule, window)"
+    "shows >= 1 fraction that uses a lot acquired before the window; CLI slice: the same relations on the written reports, with -m and with a "
+    "year -> method schedule in the config whose method changes before the window starts; distinct = hash of (history, schedule, window)"
 )
 ASSUMPTIONS = [
     "general workloads use to-dates only where own-date order and instant order agree across the cut; the inverted region is known finding KF1, exercised by its committed reproducer",
 ]
 SETTINGS: Dict[str, Dict[str, Any]] = {
-    "quick": {"cases": 1000, "cli_cases": 32, "budget_s": 50, "minimums": {"windows_checked": 3000, "nontrivial": 600, "bound_on_transaction_date": 800, "cli_pairs": 4}},
-    "thorough": {"cases": 40000, "cli_cases": 200, "budget_s": 420, "minimums": {"windows_checked": 150000, "nontrivial": 30000, "bound_on_transaction_date": 40000, "cli_pairs": 100}},
+    "quick": {"cases": 1000, "cli_cases": 32, "budget_s": 50, "minimums": {"windows_checked": 3000, "nontrivial": 600, "bound_on_transaction_date": 800, "cli_pairs": 4, "cli_cases_with_from_date_after_a_method_change": 4}},
+    "thorough": {"cases": 40000, "cli_cases": 200, "budget_s": 420, "minimums": {"windows_checked": 150000, "nontrivial": 30000, "bound_on_transaction_date": 40000, "cli_pairs": 100, "cli_cases_with_from_date_after_a_method_change": 25}},
 }
 PROFILES = [
     Profile(max_events=16, min_events=5, gap_style="medium"),
